@@ -44,10 +44,13 @@ func (inv *IndexInvertedString) InsertUpdateDelete(ctx context.Context, in <-cha
 
 func (inv *IndexInvertedString) Search(options models.SearchStringOptions) (*roaring64.Bitmap, error) {
 	query := options.Value
+	endQuery := options.EndValue
 	if !inv.params.CaseSensitive {
 		query = strings.ToLower(query)
+		// The end of a range query has to be folded like the stored values
+		endQuery = strings.ToLower(endQuery)
 	}
-	return inv.inner.Search(query, options.EndValue, options.Operator)
+	return inv.inner.Search(query, endQuery, options.Operator)
 }
 
 // ---------------------------
